@@ -947,6 +947,8 @@ static int32_t reconstruct_omitted_chunk(struct jls_core_s * self, uint16_t sign
 
     const uint64_t sz_samples = signal_def->sample_decimate_factor;
     const uint64_t sz_bytes = (sz_samples * sample_size_bits) / 8;
+    // the fixed-point position (upper half) does not change how samples are stored
+    const uint32_t data_type = signal_def->data_type & 0xffff;
     float mu32;
     float std32;
     double mu64;
@@ -968,26 +970,26 @@ static int32_t reconstruct_omitted_chunk(struct jls_core_s * self, uint16_t sign
             std64 = s32->data[s_index][JLS_SUMMARY_FSR_STD];
         }
 
-        if (signal_def->data_type == JLS_DATATYPE_F32) {
+        if (data_type == JLS_DATATYPE_F32) {
             construct_f32(sample_id + k * sz_samples, (float *) d, sz_samples, mu32, std32);
-        } else if (signal_def->data_type == JLS_DATATYPE_F64) {
+        } else if (data_type == JLS_DATATYPE_F64) {
             construct_f64(sample_id + k * sz_samples, (double *) d, sz_samples, mu64, std64);
-        } else if (signal_def->data_type == JLS_DATATYPE_U8) {
+        } else if (data_type == JLS_DATATYPE_U8) {
             uint8_t value = (uint8_t) roundf(mu32);
             memset(d, value, sz_bytes);
-        } else if (signal_def->data_type == JLS_DATATYPE_U4) {
+        } else if (data_type == JLS_DATATYPE_U4) {
             uint8_t value = ((uint8_t) roundf(mu32)) & 0x0F;
             value |= (value << 4);
             memset(d, value, sz_bytes);
-        } else if (signal_def->data_type == JLS_DATATYPE_I8) {
+        } else if (data_type == JLS_DATATYPE_I8) {
             // constant signed blocks are omitted automatically, too
             uint8_t value = (uint8_t) ((int8_t) roundf(mu32));
             memset(d, value, sz_bytes);
-        } else if (signal_def->data_type == JLS_DATATYPE_I4) {
+        } else if (data_type == JLS_DATATYPE_I4) {
             uint8_t value = ((uint8_t) ((int8_t) roundf(mu32))) & 0x0F;
             value |= (value << 4);
             memset(d, value, sz_bytes);
-        } else if (signal_def->data_type == JLS_DATATYPE_U1) {
+        } else if (data_type == JLS_DATATYPE_U1) {
             uint8_t value = ((uint8_t) roundf(mu32)) & 0x01;
             if (value) {
                 value = 0xff;
